@@ -74,9 +74,41 @@ SPECS = [
     H("c11::jubjub_affine_to_bytes_contract", "C11.K.jubjub.affine.to_bytes",
       "JubjubAffine::to_bytes = little-endian bytes of v with bit 255 := lsb of u's bytes",
       [f"{JJ}::JubjubAffine::to_bytes"], "all coordinate limbs, all oracle answers", "JubjubAffine::to_bytes:contract", est=8),
+    # ------------------------------------------------------------------ Jubjub subgroup predicates (hook H9, scalar multiplication as an oracle)
+    H("c11::jj_is_identity_definition", "C11.K.jubjub.is_identity",
+      "JubjubExtended::is_identity is u = 0 AND v = z, JubjubAffine::is_identity is u = 0 AND v = 1, on arbitrary limbs; the identity constants are the identity",
+      [f"{JJ}::JubjubExtended::is_identity", f"{JJ}::JubjubAffine::is_identity", f"{JJ}::JubjubExtended::identity"], "all 20-limb coordinate vectors",
+      "Jubjub::is_identity:definition", est=5, flags=["--no-assertion-reach-checks"]),
+    H("c11::jj_torsion_predicates_contract", "C11.K.jubjub.torsion_predicates",
+      "is_torsion_free (inherent, CofactorGroup, affine), is_prime_order (extended, affine) and CofactorGroup::into_subgroup ask the scalar-multiplication oracle about exactly this "
+      "point and the scalar r, and hold iff the answer is the identity as a projective point (u = 0 AND v = z); into_subgroup returns the point unchanged",
+      [f"{JJ}::JubjubExtended::is_torsion_free", f"{JJ}::JubjubExtended::is_prime_order", f"{JJ}::<JubjubExtended as CofactorGroup>::into_subgroup",
+       f"{JJ}::<JubjubExtended as CofactorGroup>::is_torsion_free", f"{JJ}::JubjubAffine::is_torsion_free", f"{JJ}::JubjubAffine::is_prime_order"],
+      "all extended points (20 free limbs), all oracle answers (20 free limbs)", "Jubjub::is_torsion_free:identity-test", est=15, flags=["--no-assertion-reach-checks"], replay=False,
+      stubs=["midnight_curves::JubjubExtended::multiply"]),
+    H("c11::jj_torsion_free_point_of_order_2r", "C11.K.jubjub.torsion_free.order_2r",
+      "is_torsion_free(G + (0,-1)) equals ([r]P is the identity): oracle contract under Kani, the real 252-step multiplication in the native replay (real [r]P = (0,-1))",
+      [f"{JJ}::JubjubExtended::is_torsion_free", f"{JJ}::JubjubExtended::multiply"], "one concrete point of order 2r; all oracle answers",
+      "Jubjub::is_torsion_free:order-2r-point", est=8, flags=["--no-assertion-reach-checks"], stubs=["midnight_curves::JubjubExtended::multiply"]),
+    H("c11::jj_torsion_free_subgroup_point", "C11.K.jubjub.torsion_free.subgroup_point",
+      "is_torsion_free(G) equals ([r]G is the identity) for a point G of the prime-order subgroup: oracle contract under Kani, real multiplication natively",
+      [f"{JJ}::JubjubExtended::is_torsion_free", f"{JJ}::JubjubExtended::multiply"], "one concrete subgroup point; all oracle answers",
+      "Jubjub::is_torsion_free:subgroup-point", est=8, flags=["--no-assertion-reach-checks"], stubs=["midnight_curves::JubjubExtended::multiply"]),
+    H("c11::jj_is_small_order_contract", "C11.K.jubjub.is_small_order",
+      "is_small_order (extended and affine) is: the u-coordinate of double(double(P)) is zero (double as an oracle)",
+      [f"{JJ}::JubjubExtended::is_small_order", f"{JJ}::JubjubAffine::is_small_order"], "all points, all oracle answers", "Jubjub::is_small_order:contract",
+      est=8, flags=["--no-assertion-reach-checks"], replay=False, stubs=["midnight_curves::JubjubExtended::double"]),
+    H("c11::jj_subgroup_from_bytes_contract", "C11.K.jubjub.subgroup.from_bytes",
+      "JubjubSubgroup::from_bytes is Some iff the affine decoder accepted AND the multiplication oracle answered the identity for the decoded point and r; "
+      "from_bytes_unchecked is Some iff the affine decoder accepted and never consults it; the value is the decoded point",
+      [f"{JJ}::<JubjubSubgroup as GroupEncoding>::from_bytes", f"{JJ}::<JubjubSubgroup as GroupEncoding>::from_bytes_unchecked",
+       f"{JJ}::<JubjubExtended as GroupEncoding>::from_bytes"], "all 32-byte inputs, all oracle answers", "JubjubSubgroup::from_bytes:contract", est=60, flags=["--no-assertion-reach-checks"],
+      timeout={"quick": 600, "thorough": 1800}, replay=False,
+      stubs=["midnight_curves::JubjubExtended::multiply", "ff::helpers::sqrt_tonelli_shanks"]),
 ]
 # harnesses whose assertion does not read the oracle logs are replayed against the REAL blst
-REAL = {"c11::g1p_jacobian_coordinates_is_representation", "c11::g2p_jacobian_coordinates_is_representation"}
+REAL = {"c11::g1p_jacobian_coordinates_is_representation", "c11::g2p_jacobian_coordinates_is_representation",
+        "c11::jj_torsion_free_point_of_order_2r", "c11::jj_torsion_free_subgroup_point"}
 for s in SPECS:
     if s["harness"] in REAL:
         s["replay_bin"] = "replay_real"
@@ -86,7 +118,8 @@ def check(run):
     run.bounds.append("K/C11: every harness quantifies over ALL input bytes / coordinate limbs and ALL answers of the stubbed blst functions")
     run.outside += [
         "K/C11: group law, scalar multiplication, to_affine, batch_normalize, hash_to_curve (blst bodies); curve equation and subgroup membership themselves (oracles)",
-        "K/C11: Jubjub extended-coordinate formulas, JubjubSubgroup::from_bytes = from_bytes then is_torsion_free (a 252-step double-and-add over oracle field ops; not expressible black-box without a Rust-level stub, which the native replay cannot follow)",
+        "K/C11: Jubjub extended-coordinate formulas (double, add, the 252-step `multiply`): oracles. The subgroup predicates are decided as contracts over the multiplication oracle "
+        "(Rust-level stub: those harnesses are replay=False); the two concrete-point harnesses carry the native replay with the real multiplication",
         "K/C11: secp256k1 (k256), Curve25519 (dalek), BN254 (dev-only) curve types",
     ]
     obs = kani.run_harnesses(run, CRATE, SPECS)
